@@ -1,3 +1,805 @@
+//! snowh: correspondence harness for snow (see /verif/DESIGN.md section 4.2).
+//!
+//!   snowh dump                         table dump (hook) + resolver probe
+//!   snowh run <prop> <tier> <seed> <outdir>   generate + execute scenarios for one property
+//!   snowh exec <opsfile>               re-execute an operation script, print result lines
+
+mod exec;
+mod gen;
+mod gen2;
+mod prim;
+mod toy;
+mod util;
+
+use exec::{hex, unhex, BuildSpec, Exec};
+use gen::*;
+use gen2::*;
+use std::{fmt::Write as _, fs, io::Read as _};
+use util::*;
+
+fn dump() -> String {
+    let mut o = snow::verif_hooks::dump_tables();
+    for res in ["default", "ring"] {
+        for (kind, choices) in [
+            ("dh", vec!["Curve25519", "Curve448", "P256"]),
+            ("hash", vec!["SHA256", "SHA512", "Blake2s", "Blake2b"]),
+            ("cipher", vec!["ChaChaPoly", "XChaChaPoly", "AESGCM"]),
+        ] {
+            for c in choices {
+                let _ = writeln!(o, "resolver {res} {kind} {c} {}", exec::resolve_line(res, kind, c));
+            }
+        }
+        let _ = writeln!(o, "resolver {res} rng - {}", exec::resolve_line(res, "rng", "-"));
+    }
+    o
+}
+
+/// Suites the Lean side can follow: toy resolver for any name; `default`/`ring` for the real ones.
+fn suites_for(i: usize, real: bool) -> (String, String, String, String) {
+    let dh = if real { ["25519", "P256"][i % 2] } else { DHS[i % 3] };
+    let ci = CIPHERS[(i / 2) % 3];
+    let ha = HASHES[(i / 3) % 4];
+    (dh.into(), ci.into(), ha.into(), if real { "default".into() } else { "toy".into() })
+}
+
+fn psk_choices(nmsgs: usize, i: usize) -> Vec<u8> {
+    let n = nmsgs as u8;
+    match i % 6 {
+        0 => vec![],
+        1 => vec![0],
+        2 => vec![n],
+        3 => vec![1],
+        4 => vec![0, n],
+        _ => vec![(i as u8 / 6) % (n + 1)],
+    }
+}
+
+fn base_cfg(pattern: &str, i: usize, seed: u64, real: bool) -> HsCfg {
+    let nm = inst_of(pattern, &[]).map_or(1, |x| x.msgs.len());
+    let (dh, cipher, hash, res) = suites_for(i, real);
+    let mut r = Rng64(seed ^ (i as u64).wrapping_mul(0x51ed));
+    let lens = [0usize, 1, 15, 16, 17, 33, 100];
+    HsCfg {
+        pattern: pattern.into(),
+        psks: psk_choices(nm, i),
+        dh,
+        cipher,
+        hash,
+        res_i: res.clone(),
+        res_r: res,
+        fixed_e: false,
+        prologue: match i % 3 {
+            0 => None,
+            1 => { let n = r.below(70); Some(r.bytes(n)) },
+            _ => Some(vec![]),
+        },
+        payload_lens: (0..nm).map(|_| lens[r.below(lens.len())]).collect(),
+        faults: vec![],
+        stateless: i % 2 == 1,
+        transport_msgs: 4,
+        query_each_step: false,
+        seed: r.next(),
+    }
+}
+
+fn all_fault_kinds(nfields: usize, r: &mut Rng64) -> Vec<Fault> {
+    let mut v = vec![
+        Fault::WriteCapShort(1),
+        Fault::WriteCapShort(1 + r.below(20)),
+        Fault::WriteOversize,
+        Fault::ReadCapShort(1),
+        Fault::ReadOversize,
+        Fault::OutOfTurn,
+        Fault::ReadTamper(Tamper::Truncate(1)),
+        Fault::ReadTamper(Tamper::Truncate(1 + r.below(40))),
+        Fault::ReadTamper(Tamper::Extend(1)),
+        Fault::ReadTamper(Tamper::Extend(16)),
+        Fault::ReadTamper(Tamper::Replay),
+        Fault::ReadTamper(Tamper::Garbage),
+    ];
+    for f in 0..nfields {
+        v.push(Fault::WriteCapInField(f));
+        v.push(Fault::ReadTamper(Tamper::Flip { field: f, at_end: false }));
+        v.push(Fault::ReadTamper(Tamper::Flip { field: f, at_end: true }));
+    }
+    v
+}
+
+/// Handshake scenarios. `focus` selects what the property needs.
+#[allow(clippy::too_many_lines)]
+fn gen_hs(run: &mut Run, prop: &str, seed: u64, thorough: bool) {
+    let pats = pattern_names();
+    let mut r = Rng64(seed ^ 0x6873);
+    let reps = if thorough { 6 } else { 1 };
+    for rep in 0..reps {
+        for (pi, p) in pats.iter().enumerate() {
+            let i = pi + rep * 41 + (seed as usize % 7);
+            let nm = inst_of(p, &[]).map_or(1, |x| x.msgs.len());
+            for real in [false, true] {
+                let mut cfg = base_cfg(p, i, r.next(), real);
+                let inst = inst_of(p, &cfg.psks).unwrap();
+                let lay = layout(&inst, !cfg.psks.is_empty());
+                match prop {
+                    // honest runs: random ephemerals, boundary payloads, both transports
+                    "C02" | "C01" | "C20" => {
+                        if rep % 2 == 1 {
+                            cfg.fixed_e = true;
+                        }
+                        if prop == "C02" && r.chance(1, 3) {
+                            let k = r.below(nm);
+                            cfg.payload_lens[k] = 65535; // clipped to the maximum for that message
+                        }
+                        cfg.query_each_step = prop == "C01";
+                        if prop == "C20" && real {
+                            let mix = ["default", "fb(ring,default)", "fb(default,ring)", "fb(none,default)"];
+                            cfg.res_i = mix[i % 4].into();
+                            cfg.res_r = mix[(i / 4) % 4].into();
+                            // ring supports only SHA-2 and not XChaCha; fb falls back to default
+                        }
+                        let mut sc = Sc::new();
+                        let tr = run_hs(&cfg, &mut sc);
+                        if prop == "C20" && real {
+                            // same inputs, plain default backend: bytes must be identical
+                            let mut cfg2 = cfg.clone();
+                            cfg2.res_i = "default".into();
+                            cfg2.res_r = "default".into();
+                            let tr2 = run_hs(&cfg2, &mut sc);
+                            if tr.msgs != tr2.msgs || tr.hh != tr2.hh || tr.transport != tr2.transport {
+                                sc.viol("C20", format!("{}: bytes differ between backends {} / {} and default", cfg.name(), cfg.res_i, cfg.res_r));
+                            }
+                        }
+                        run.add("hs", format!("{prop} honest {}", cfg.name()), sc);
+                    },
+                    // every failure cause x message, with twin comparison under fixed ephemerals
+                    "C07" | "C06" | "C10" | "C14" | "C19" | "C03" | "C11" | "C12" | "C17" => {
+                        cfg.fixed_e = prop == "C07" || r.chance(1, 2);
+                        cfg.query_each_step = matches!(prop, "C07" | "C11" | "C17");
+                        if prop == "C17" && !real {
+                            cfg.dh = "P256".into();
+                        }
+                        if prop == "C17" && real {
+                            cfg.dh = ["P256", "25519"][rep % 2].into();
+                        }
+                        let nfaults = if thorough { 3 } else { 2 };
+                        for k in 0..nm {
+                            let kinds = all_fault_kinds(lay[k].len(), &mut r);
+                            let chosen: Vec<Fault> = match prop {
+                                "C03" | "C19" => kinds.iter().filter(|f| matches!(f, Fault::ReadTamper(_))).cloned().collect(),
+                                "C14" => kinds.iter().filter(|f| matches!(f, Fault::WriteCapShort(_) | Fault::WriteCapInField(_) | Fault::WriteOversize | Fault::ReadCapShort(_) | Fault::ReadOversize | Fault::ReadTamper(Tamper::Truncate(_)))).cloned().collect(),
+                                "C11" => vec![Fault::OutOfTurn],
+                                "C12" => vec![Fault::MissingPsk],
+                                "C17" => vec![Fault::ReadTamper(Tamper::Flip { field: lay[k].len() - 1, at_end: true }), Fault::ReadCapShort(1)],
+                                _ => kinds.clone(),
+                            };
+                            // spread the kinds over scenarios, `nfaults` per scenario
+                            let take = if matches!(prop, "C03" | "C14" | "C10" | "C07" | "C06" | "C19") && (thorough || pi % 2 == rep % 2 || prop == "C03") { chosen.len() } else { nfaults.min(chosen.len()) };
+                            let mut idx = 0;
+                            while idx < take {
+                                let mut c = cfg.clone();
+                                c.seed = r.next();
+                                for f in chosen.iter().skip(idx).take(nfaults) {
+                                    c.faults.push((k, f.clone()));
+                                }
+                                if prop == "C12" && !c.psks.iter().any(|n| inst.msgs[k].contains(&Tok::Psk(*n))) {
+                                    break;
+                                }
+                                idx += nfaults;
+                                let mut sc = Sc::new();
+                                let tr = run_hs(&c, &mut sc);
+                                check_nonce_reuse(&c.name(), &tr, &mut sc);
+                                if c.fixed_e && tr.finished {
+                                    // twin run without faults: identical bytes (C07)
+                                    let mut twin = c.clone();
+                                    twin.faults.clear();
+                                    let mut sc2 = Sc::new();
+                                    let tr2 = run_hs(&twin, &mut sc2);
+                                    if tr2.finished && (tr.msgs != tr2.msgs || tr.hh != tr2.hh || tr.transport != tr2.transport) {
+                                        sc.viol("C07", format!("{}: bytes after failed calls {:?} differ from the fault-free twin", c.name(), c.faults));
+                                    }
+                                }
+                                run.add("hs", format!("{prop} faults {} {:?}", c.name(), c.faults), sc);
+                            }
+                        }
+                    },
+                    _ => {},
+                }
+            }
+        }
+    }
+}
+
+/// C03: after an accepted (cleartext) alteration the two sides must not both finish cleanly.
+fn gen_tamper_continue(run: &mut Run, seed: u64, thorough: bool) {
+    let pats = pattern_names();
+    let mut r = Rng64(seed ^ 0x74616d70);
+    for (pi, p) in pats.iter().enumerate() {
+        for real in [false, true] {
+            for rep in 0..(if thorough { 4 } else { 1 }) {
+                let cfg = base_cfg(p, pi + rep * 13, r.next(), real);
+                let inst = inst_of(p, &cfg.psks).unwrap();
+                let lay = layout(&inst, !cfg.psks.is_empty());
+                let nm = inst.msgs.len();
+                for k in 0..nm {
+                    for fi in 0..lay[k].len() {
+                        let mut sc = Sc::new();
+                        run_tamper_continue(&cfg, k, fi, &mut sc, &mut r);
+                        run.add("hs", format!("C03 continue {} msg {k} field {fi}", cfg.name()), sc);
+                    }
+                }
+            }
+        }
+    }
+}
+
+fn run_tamper_continue(cfg: &HsCfg, k_alt: usize, field: usize, sc: &mut Sc, r: &mut Rng64) {
+    // honest pair, fixed script; message k_alt is altered in transit and NOT re-delivered
+    let name = cfg.name();
+    sc.ex.comment(&format!("tamper-continue {name} message {k_alt} field {field}"));
+    let inst = inst_of(&cfg.pattern, &cfg.psks).unwrap();
+    let lay = layout(&inst, !cfg.psks.is_empty());
+    let mut kr = Rng64(cfg.seed);
+    let (s_i, s_r) = (kr.bytes(32), kr.bytes(32));
+    let (Some(pub_i), Some(pub_r)) = (pub_of(&cfg.res_i, &cfg.dh, &s_i), pub_of(&cfg.res_r, &cfg.dh, &s_r)) else { return };
+    let pub_len = pub_i.len();
+    let psk: Vec<(u8, Vec<u8>)> = cfg.psks.iter().map(|n| (*n, vec![0x11 + *n; 32])).collect();
+    let mk = |initiator: bool, kr: &mut Rng64| BuildSpec {
+        name: name.clone(),
+        initiator,
+        resolver: cfg.res_i.clone(),
+        s: if role_uses_s(&inst, initiator) { Some(if initiator { s_i.clone() } else { s_r.clone() }) } else { None },
+        e: None,
+        rs: if role_preknows_rs(&inst, initiator) { Some(if initiator { pub_r.clone() } else { pub_i.clone() }) } else { None },
+        psks: psk.clone(),
+        prologue: cfg.prologue.clone(),
+        rng: kr.bytes(64),
+    };
+    if !sc.ex.build(1, &mk(true, &mut kr)).is_ok() || !sc.ex.build(2, &mk(false, &mut kr)).is_ok() {
+        return;
+    }
+    let mut any_err = false;
+    for k in 0..inst.msgs.len() {
+        let (w, rd) = if k % 2 == 0 { (1, 2) } else { (2, 1) };
+        let plen = 20;
+        let p = r.bytes(plen);
+        let o = sc.ex.hs_write(w, &p, 400);
+        sc.check_panic(&o, "hs_write");
+        let Some(mut m) = o.bytes().map(<[u8]>::to_vec) else {
+            any_err = true;
+            break;
+        };
+        if k == k_alt {
+            let mut off = 0;
+            for f in &lay[k][..field] {
+                off += field_len(f, pub_len, plen);
+            }
+            let fl = field_len(&lay[k][field], pub_len, plen);
+            if fl == 0 || off >= m.len() {
+                return;
+            }
+            let pos = off + r.below(fl);
+            m[pos] ^= 1 << r.below(8);
+        }
+        let o = sc.ex.hs_read(rd, &m, 400);
+        sc.check_panic(&o, "hs_read");
+        if !o.is_ok() {
+            any_err = true;
+            break;
+        }
+    }
+    if !any_err {
+        let fi = sc.ex.query(1).and_then(|q| q.fin) == Some(true);
+        let fr = sc.ex.query(2).and_then(|q| q.fin) == Some(true);
+        if fi && fr {
+            sc.viol("C03", format!("{name}: message {k_alt} altered in field {field}, yet both sides finished without error"));
+        }
+    }
+    sc.count(if any_err { "tamper_continue.detected" } else { "tamper_continue.undetected" });
+}
+
+/// C08: mismatched configuration never yields a channel.
+fn gen_mismatch(run: &mut Run, seed: u64, thorough: bool) {
+    let pats = pattern_names();
+    let mut r = Rng64(seed ^ 0x6d69736d);
+    for (pi, p) in pats.iter().enumerate() {
+        for real in [false, true] {
+            for rep in 0..(if thorough { 3 } else { 1 }) {
+                let i = pi + rep * 17;
+                let mut cfg = base_cfg(p, i, r.next(), real);
+                if cfg.psks.is_empty() && rep % 2 == 0 && pi % 2 == 0 {
+                    cfg.psks = vec![0];
+                }
+                for kind in 0..5 {
+                    let mut sc = Sc::new();
+                    if run_mismatch(&cfg, kind, &mut sc, &mut r) {
+                        run.add("hs", format!("C08 mismatch kind {kind} {}", cfg.name()), sc);
+                    }
+                }
+            }
+        }
+    }
+}
+
+fn run_mismatch(cfg: &HsCfg, kind: usize, sc: &mut Sc, r: &mut Rng64) -> bool {
+    let name = cfg.name();
+    let inst = inst_of(&cfg.pattern, &cfg.psks).unwrap();
+    let mut kr = Rng64(cfg.seed);
+    let (s_i, s_r, s_x) = (kr.bytes(32), kr.bytes(32), kr.bytes(32));
+    let (Some(pub_i), Some(pub_r), Some(pub_x)) =
+        (pub_of(&cfg.res_i, &cfg.dh, &s_i), pub_of(&cfg.res_r, &cfg.dh, &s_r), pub_of(&cfg.res_r, &cfg.dh, &s_x))
+    else {
+        return false;
+    };
+    let psk: Vec<(u8, Vec<u8>)> = cfg.psks.iter().map(|n| (*n, vec![0x21 + *n; 32])).collect();
+    let mut spec_i = BuildSpec {
+        name: name.clone(),
+        initiator: true,
+        resolver: cfg.res_i.clone(),
+        s: if role_uses_s(&inst, true) { Some(s_i.clone()) } else { None },
+        e: None,
+        rs: if role_preknows_rs(&inst, true) { Some(pub_r.clone()) } else { None },
+        psks: psk.clone(),
+        prologue: Some(b"prologue".to_vec()),
+        rng: kr.bytes(64),
+    };
+    let mut spec_r = BuildSpec {
+        name: name.clone(),
+        initiator: false,
+        resolver: cfg.res_r.clone(),
+        s: if role_uses_s(&inst, false) { Some(s_r.clone()) } else { None },
+        e: None,
+        rs: if role_preknows_rs(&inst, false) { Some(pub_i.clone()) } else { None },
+        psks: psk.clone(),
+        prologue: Some(b"prologue".to_vec()),
+        rng: kr.bytes(64),
+    };
+    let what = match kind {
+        0 => {
+            let mut p = b"prologue".to_vec();
+            let i = r.below(p.len());
+            p[i] ^= 1 << r.below(8);
+            spec_r.prologue = Some(p);
+            "prologue bit"
+        },
+        1 => {
+            spec_r.prologue = if r.chance(1, 2) { None } else { Some(b"prologue\0".to_vec()) };
+            "prologue length"
+        },
+        2 => {
+            if psk.is_empty() {
+                return false;
+            }
+            let j = r.below(spec_r.psks.len());
+            let b = r.below(32);
+            spec_r.psks[j].1[b] ^= 1 << r.below(8);
+            "psk bit"
+        },
+        3 => {
+            // a pre-shared static key that is not the peer's
+            if spec_i.rs.is_some() {
+                spec_i.rs = Some(pub_x.clone());
+                "initiator's copy of the responder static"
+            } else if spec_r.rs.is_some() {
+                spec_r.rs = Some(pub_x.clone());
+                "responder's copy of the initiator static"
+            } else {
+                return false;
+            }
+        },
+        _ => {
+            // same pattern, different hash of equal digest length (a different protocol name)
+            let other = match cfg.hash.as_str() {
+                "SHA256" => "BLAKE2s",
+                "BLAKE2s" => "SHA256",
+                "SHA512" => "BLAKE2b",
+                _ => "SHA512",
+            };
+            spec_r.name = format!("Noise_{}{}_{}_{}_{}", cfg.pattern, mods_suffix(&cfg.psks), cfg.dh, cfg.cipher, other);
+            "hash in the protocol name"
+        },
+    };
+    sc.ex.comment(&format!("mismatch {name}: {what}"));
+    if !sc.ex.build(1, &spec_i).is_ok() || !sc.ex.build(2, &spec_r).is_ok() {
+        return true;
+    }
+    let mut failed = false;
+    for k in 0..inst.msgs.len() {
+        let (w, rd) = if k % 2 == 0 { (1, 2) } else { (2, 1) };
+        let p = r.bytes(8);
+        let o = sc.ex.hs_write(w, &p, 400);
+        sc.check_panic(&o, "hs_write");
+        let Some(m) = o.bytes().map(<[u8]>::to_vec) else {
+            failed = true;
+            break;
+        };
+        let o = sc.ex.hs_read(rd, &m, 400);
+        sc.check_panic(&o, "hs_read");
+        if !o.is_ok() {
+            failed = true;
+            break;
+        }
+    }
+    if !failed {
+        sc.viol("C08", format!("{name}: handshake completed on both sides despite a mismatch in {what}"));
+        // and transport must not work either
+        if sc.ex.convert(1, false).is_ok() && sc.ex.convert(2, false).is_ok() {
+            if let Some(m) = sc.ex.t_write(1, b"hello", 64).bytes().map(<[u8]>::to_vec) {
+                if sc.ex.t_read(2, &m, 64).is_ok() {
+                    sc.viol("C08", format!("{name}: transport message accepted despite a mismatch in {what}"));
+                }
+            }
+        }
+    }
+    sc.count(if failed { "mismatch.detected" } else { "mismatch.undetected" });
+    true
+}
+
+fn gen_transport(run: &mut Run, prop: &str, seed: u64, thorough: bool) {
+    let mut r = Rng64(seed ^ 0x7470);
+    let names = [
+        "Noise_NN_25519_ChaChaPoly_SHA256",
+        "Noise_NN_25519_AESGCM_SHA512",
+        "Noise_NNpsk0_25519_XChaChaPoly_BLAKE2s",
+        "Noise_N_25519_ChaChaPoly_BLAKE2b",
+        "Noise_X_P256_AESGCM_SHA256",
+        "Noise_KK_P256_ChaChaPoly_SHA256",
+        "Noise_IK_25519_AESGCM_BLAKE2s",
+        "Noise_XX_448_ChaChaPoly_SHA512",
+    ];
+    let reps = if thorough { 12 } else { 2 };
+    for rep in 0..reps {
+        for (i, n) in names.iter().enumerate() {
+            for res in ["toy", "default", "ring"] {
+                if res != "toy" && n.contains("_448_") {
+                    continue;
+                }
+                let res_s = if res == "ring" { "fb(ring,default)" } else { res };
+                let cfg = TransportCfg { name: (*n).into(), res_i: res_s.into(), res_r: if res == "ring" && rep % 2 == 0 { "default".into() } else { res_s.into() }, seed: r.next(), steps: if thorough { 120 } else { 60 } };
+                if matches!(prop, "C04" | "C05" | "C09" | "C15" | "C14" | "C19" | "C10" | "C11" | "C07" | "C06" | "C20") {
+                    let mut sc = Sc::new();
+                    run_transport(&cfg, &mut sc);
+                    run.add("transport", format!("{prop} transport {n} {res} #{rep}"), sc);
+                }
+                if matches!(prop, "C04" | "C09" | "C16" | "C15" | "C10") {
+                    let mut sc = Sc::new();
+                    run_stateless(&cfg, &mut sc);
+                    run.add("stateless", format!("{prop} stateless {n} {res} #{rep}"), sc);
+                }
+                let _ = i;
+            }
+        }
+    }
+}
+
+/// C16: many threads share one stateless session.
+fn gen_threads(run: &mut Run, seed: u64, thorough: bool) {
+    use std::sync::Arc;
+    let mut sc = Sc::new();
+    sc.ex.comment("threads: 8 threads share one StatelessTransportState (implementation only)");
+    for res in ["default", "fb(ring,default)"] {
+        let mk = |initiator: bool| {
+            let params: snow::params::NoiseParams = "Noise_NN_25519_ChaChaPoly_SHA256".parse().unwrap();
+            let ek = [if initiator { 7u8 } else { 9u8 }; 32];
+            let b = snow::Builder::with_resolver(params, toy::resolver_from_expr(res).unwrap()).fixed_ephemeral_key_for_testing_only(&ek);
+            if initiator { b.build_initiator().unwrap() } else { b.build_responder().unwrap() }
+        };
+        let (mut i, mut rr) = (mk(true), mk(false));
+        let mut buf = [0u8; 200];
+        let mut buf2 = [0u8; 200];
+        let n = i.write_message(&[], &mut buf).unwrap();
+        rr.read_message(&buf[..n], &mut buf2).unwrap();
+        let n = rr.write_message(&[], &mut buf).unwrap();
+        i.read_message(&buf[..n], &mut buf2).unwrap();
+        let i = Arc::new(i.into_stateless_transport_mode().unwrap());
+        let rr = Arc::new(rr.into_stateless_transport_mode().unwrap());
+        let iters = if thorough { 20000 } else { 2000 };
+        // reference results computed single-threaded
+        let reference: Vec<Vec<u8>> = (0..64u64)
+            .map(|n| {
+                let mut out = vec![0u8; 48];
+                let l = i.write_message(n, &[n as u8; 32], &mut out).unwrap();
+                out.truncate(l);
+                out
+            })
+            .collect();
+        let reference = Arc::new(reference);
+        let bad = Arc::new(std::sync::atomic::AtomicUsize::new(0));
+        let mut hs = vec![];
+        for t in 0..8u64 {
+            let (i, rr, reference, bad) = (i.clone(), rr.clone(), reference.clone(), bad.clone());
+            let mut r = Rng64(seed ^ t);
+            hs.push(std::thread::spawn(move || {
+                for _ in 0..iters {
+                    let n = r.below(64) as u64;
+                    let mut out = vec![0u8; 48];
+                    let l = i.write_message(n, &[n as u8; 32], &mut out).unwrap_or(0);
+                    if out[..l] != reference[n as usize][..] {
+                        bad.fetch_add(1, std::sync::atomic::Ordering::Relaxed);
+                    }
+                    let mut p = vec![0u8; 32];
+                    match rr.read_message(n, &reference[n as usize], &mut p) {
+                        Ok(32) if p == [n as u8; 32] => {},
+                        _ => {
+                            bad.fetch_add(1, std::sync::atomic::Ordering::Relaxed);
+                        },
+                    }
+                }
+            }));
+        }
+        for h in hs {
+            if h.join().is_err() {
+                sc.viol("C10", "panic in a stateless transport thread".into());
+            }
+        }
+        let b = bad.load(std::sync::atomic::Ordering::Relaxed);
+        *sc.stats.entry("threads.ops".into()).or_insert(0) += 8 * 2 * iters as u64;
+        if b != 0 {
+            sc.viol("C16", format!("{b} concurrent stateless operations gave results different from the single-threaded ones ({res})"));
+        }
+    }
+    run.add("threads", "stateless threads".into(), sc);
+}
+
+fn run_prop(prop: &str, thorough: bool, seed: u64) -> Run {
+    let mut run = Run::default();
+    match prop {
+        "C01" => {
+            gen_tokens(&mut run, seed, thorough);
+            gen_hs(&mut run, prop, seed, thorough);
+            prim::gen_prim(&mut run, seed, thorough, true);
+        },
+        "C02" => {
+            gen_hs(&mut run, prop, seed, thorough);
+        },
+        "C03" => {
+            gen_hs(&mut run, prop, seed, thorough);
+            gen_tamper_continue(&mut run, seed, thorough);
+        },
+        "C04" | "C05" | "C09" | "C15" => gen_transport(&mut run, prop, seed, thorough),
+        "C06" | "C07" => {
+            gen_hs(&mut run, prop, seed, thorough);
+            gen_transport(&mut run, prop, seed, thorough);
+        },
+        "C08" => gen_mismatch(&mut run, seed, thorough),
+        "C10" => {
+            gen_parse(&mut run, seed, false);
+            gen_build(&mut run, seed, false);
+            gen_hs(&mut run, prop, seed, thorough);
+            gen_transport(&mut run, prop, seed, thorough);
+        },
+        "C11" => {
+            gen_hs(&mut run, prop, seed, thorough);
+            gen_transport(&mut run, prop, seed, thorough);
+        },
+        "C12" => {
+            gen_build(&mut run, seed, thorough);
+            gen_tokens(&mut run, seed, thorough);
+            gen_hs(&mut run, prop, seed, thorough);
+        },
+        "C13" => gen_parse(&mut run, seed, thorough),
+        "C14" => {
+            gen_hs(&mut run, prop, seed, thorough);
+            gen_transport(&mut run, prop, seed, thorough);
+        },
+        "C16" => {
+            gen_transport(&mut run, prop, seed, thorough);
+            gen_threads(&mut run, seed, thorough);
+        },
+        "C17" => gen_hs(&mut run, prop, seed, thorough),
+        "C18" => prim::gen_prim(&mut run, seed, thorough, false),
+        "C19" => {
+            gen_hs(&mut run, prop, seed, thorough);
+            gen_transport(&mut run, prop, seed, thorough);
+            prim::gen_prim(&mut run, seed, thorough, true);
+        },
+        "C20" => {
+            gen_resolve(&mut run);
+            gen_build(&mut run, seed, false);
+            gen_hs(&mut run, prop, seed, thorough);
+            gen_transport(&mut run, prop, seed, thorough);
+            prim::gen_prim(&mut run, seed, thorough, true);
+        },
+        _ => {},
+    }
+    run
+}
+
+fn json_str(s: &str) -> String {
+    let mut o = String::from("\"");
+    for c in s.chars() {
+        match c {
+            '"' => o.push_str("\\\""),
+            '\\' => o.push_str("\\\\"),
+            '\n' => o.push_str("\\n"),
+            c if (c as u32) < 0x20 => {
+                let _ = write!(o, "\\u{:04x}", c as u32);
+            },
+            c => o.push(c),
+        }
+    }
+    o.push('"');
+    o
+}
+
+fn exec_script(text: &str) -> Vec<String> {
+    let mut ex = Exec::new();
+    for line in text.lines() {
+        let line = line.trim_end();
+        if line.is_empty() {
+            continue;
+        }
+        if line.starts_with("# scenario") {
+            ex.sessions.clear();
+            ex.ops.push(line.into());
+            ex.res.push(line.into());
+            continue;
+        }
+        if line.starts_with('#') {
+            ex.comment(&line[1..].trim_start());
+            continue;
+        }
+        exec_line(&mut ex, line);
+    }
+    ex.res
+}
+
+fn parse_u<T: std::str::FromStr>(s: &str) -> T {
+    s.parse().ok().unwrap_or_else(|| panic!("bad number {s}"))
+}
+
+fn kv<'a>(parts: &[&'a str], key: &str) -> &'a str {
+    parts.iter().find_map(|p| p.strip_prefix(key).and_then(|x| x.strip_prefix('='))).unwrap_or("none")
+}
+
+fn opt_bytes(s: &str) -> Option<Vec<u8>> {
+    if s == "none" { None } else { unhex(s) }
+}
+
+fn exec_line(ex: &mut Exec, line: &str) {
+    let parts: Vec<&str> = line.split(' ').collect();
+    let b = |s: &str| unhex(s).unwrap_or_default();
+    match parts[0] {
+        "parse" => {
+            ex.parse(&b(parts[1]));
+        },
+        "tokens" => {
+            let mods: Vec<snow::params::HandshakeModifier> = if parts[2] == "-" {
+                vec![]
+            } else {
+                parts[2]
+                    .split(',')
+                    .map(|m| if m == "fallback" { snow::params::HandshakeModifier::Fallback } else { snow::params::HandshakeModifier::Psk(parse_u(&m[3..])) })
+                    .collect()
+            };
+            ex.tokens(parse_u(parts[1]), &mods);
+        },
+        "build" => {
+            let psks = kv(&parts, "psks");
+            let spec = BuildSpec {
+                name: String::from_utf8_lossy(&b(parts[3])).into_owned(),
+                initiator: parts[2] == "i",
+                resolver: kv(&parts, "res").into(),
+                s: opt_bytes(kv(&parts, "s")),
+                e: opt_bytes(kv(&parts, "e")),
+                rs: opt_bytes(kv(&parts, "rs")),
+                psks: if psks == "none" { vec![] } else { psks.split(',').map(|x| { let (i, k) = x.split_once(':').unwrap(); (parse_u(i), b(k)) }).collect() },
+                prologue: opt_bytes(kv(&parts, "pro")),
+                rng: b(kv(&parts, "rng")),
+            };
+            ex.build(parse_u(parts[1]), &spec);
+        },
+        "hs_write" => {
+            ex.hs_write(parse_u(parts[1]), &b(parts[2]), parse_u(parts[3]));
+        },
+        "hs_read" => {
+            ex.hs_read(parse_u(parts[1]), &b(parts[2]), parse_u(parts[3]));
+        },
+        "set_psk" => {
+            ex.set_psk(parse_u(parts[1]), parse_u(parts[2]), &b(parts[3]));
+        },
+        "query" => {
+            ex.query(parse_u(parts[1]));
+        },
+        "to_transport" => {
+            ex.convert(parse_u(parts[1]), false);
+        },
+        "to_stateless" => {
+            ex.convert(parse_u(parts[1]), true);
+        },
+        "t_write" => {
+            ex.t_write(parse_u(parts[1]), &b(parts[2]), parse_u(parts[3]));
+        },
+        "t_read" => {
+            ex.t_read(parse_u(parts[1]), &b(parts[2]), parse_u(parts[3]));
+        },
+        "st_write" => {
+            ex.st_write(parse_u(parts[1]), parse_u(parts[2]), &b(parts[3]), parse_u(parts[4]));
+        },
+        "st_read" => {
+            ex.st_read(parse_u(parts[1]), parse_u(parts[2]), &b(parts[3]), parse_u(parts[4]));
+        },
+        "rekey" => {
+            ex.rekey(parse_u(parts[1]), parts[2]);
+        },
+        "rekey_manual" => {
+            let f = |s: &str| -> Option<[u8; 32]> { opt_bytes(s).and_then(|v| v.try_into().ok()) };
+            let (a, c) = (f(parts[2]), f(parts[3]));
+            ex.rekey_manual(parse_u(parts[1]), a.as_ref(), c.as_ref());
+        },
+        "set_recv_nonce" => ex.set_recv_nonce(parse_u(parts[1]), parse_u(parts[2])),
+        "set_send_nonce" => ex.set_send_nonce(parse_u(parts[1]), parse_u(parts[2])),
+        "drop" => ex.drop_session(parse_u(parts[1])),
+        "resolve" => {
+            ex.resolve(parts[1], parts[2], parts[3]);
+        },
+        "prim" => prim::exec_prim(ex, &parts),
+        _ => {
+            ex.ops.push(line.into());
+            ex.res.push("badop".into());
+        },
+    }
+}
+
 fn main() {
-    print!("{}", snow::verif_hooks::dump_tables());
+    std::panic::set_hook(Box::new(|_| {}));
+    let args: Vec<String> = std::env::args().collect();
+    match args.get(1).map(String::as_str) {
+        Some("dump") => print!("{}", dump()),
+        Some("run") => {
+            let prop = &args[2];
+            let thorough = args[3] == "thorough";
+            let seed: u64 = args[4].parse().unwrap();
+            let outdir = &args[5];
+            fs::create_dir_all(outdir).unwrap();
+            let run = run_prop(prop, thorough, seed);
+            let mut ops = String::new();
+            let mut imp = String::new();
+            let p256 = "Noise_NN_P256_AESGCM_SHA256".parse::<snow::params::NoiseParams>().is_ok();
+            let xch = "Noise_NN_25519_XChaChaPoly_SHA256".parse::<snow::params::NoiseParams>().is_ok();
+            let hdr = format!("features p256={} xchacha={}", u8::from(p256), u8::from(xch));
+            let _ = writeln!(ops, "{hdr}");
+            let _ = writeln!(imp, "{hdr}");
+            for s in &run.scenarios {
+                let h = format!("# scenario {} {} {}", s.id, s.component, s.title.replace('\n', " "));
+                let _ = writeln!(ops, "{h}");
+                let _ = writeln!(imp, "{h}");
+                for (o, r) in s.ops.iter().zip(s.res.iter()) {
+                    let _ = writeln!(ops, "{o}");
+                    let _ = writeln!(imp, "{r}");
+                }
+            }
+            fs::write(format!("{outdir}/ops.txt"), ops).unwrap();
+            fs::write(format!("{outdir}/impl.txt"), imp).unwrap();
+            let mut meta = String::from("{\n \"violations\": [");
+            for (i, v) in run.viols.iter().enumerate() {
+                let _ = write!(meta, "{}\n  {{\"prop\": {}, \"scenario\": {}, \"what\": {}}}", if i > 0 { "," } else { "" }, json_str(&v.prop), v.scenario, json_str(&v.what));
+            }
+            meta.push_str("\n ],\n \"stats\": {");
+            for (i, (k, v)) in run.stats.iter().enumerate() {
+                let _ = write!(meta, "{}\n  {}: {}", if i > 0 { "," } else { "" }, json_str(k), v);
+            }
+            meta.push_str("\n },\n \"samples\": [");
+            for (i, s) in run.samples.iter().enumerate() {
+                let _ = write!(meta, "{}\n  {}", if i > 0 { "," } else { "" }, json_str(s));
+            }
+            let _ = write!(meta, "\n ],\n \"scenarios\": {}\n}}\n", run.scenarios.len());
+            fs::write(format!("{outdir}/meta.json"), meta).unwrap();
+            println!("scenarios={} ops={} violations={}", run.scenarios.len(), run.stats.get("ops").copied().unwrap_or(0), run.viols.len());
+        },
+        Some("exec") => {
+            let mut text = String::new();
+            if let Some(p) = args.get(2) {
+                text = fs::read_to_string(p).unwrap();
+            } else {
+                std::io::stdin().read_to_string(&mut text).unwrap();
+            }
+            for l in exec_script(&text) {
+                println!("{l}");
+            }
+        },
+        _ => {
+            eprintln!("usage: snowh dump | run <prop> <quick|thorough> <seed> <outdir> | exec [opsfile]");
+            std::process::exit(2);
+        },
+    }
+    let _ = hex(&[]);
 }
